@@ -59,8 +59,15 @@ func checkC12(c *Check) {
 		for _, b := range fn.Blocks {
 			for _, in := range b.Instrs {
 				if d, ok := in.(*ssa.Defer); ok {
-					if mc, ok := d.Call.Value.(*ssa.MakeClosure); ok {
-						cl := mc.Fn.(*ssa.Function)
+					// the deferred function: a closure, or a named function / method of the module
+					var cl *ssa.Function
+					switch dv := d.Call.Value.(type) {
+					case *ssa.MakeClosure:
+						cl, _ = dv.Fn.(*ssa.Function)
+					case *ssa.Function:
+						cl = dv
+					}
+					if cl != nil && inModule(cl) && len(cl.Blocks) > 0 {
 						k, r := false, false
 						var kc, rc ssa.CallInstruction
 						for _, ci := range callInstrs(cl) {
@@ -142,10 +149,22 @@ func checkC12(c *Check) {
 		}
 	}
 	checkContainerReap(c)
-	c.Expect("1/kill-reap", 8)
+	checkDestroyKillsAndReaps(c, "1/kill-reap")
+	c.Expect("1/kill-reap", 10)
 
 	// ---------- 2: descriptor pairing ----------
 	checkDescriptorPairing(c)
+	// descriptors that arrived with a message that is then rejected are closed (the rules of C19.3)
+	sub19 := NewCheck("C19", c.Tier, c.P)
+	checkC19(sub19)
+	n19 := 0
+	for _, o := range sub19.Obs {
+		if o.Rule == "C19.3/no-leak-on-reject" {
+			n19++
+			c.Obs = append(c.Obs, Obligation{Rule: "C12.2/rejected-message-descriptors", Key: o.Key, Pos: o.Pos, Status: o.Status, Msg: o.Msg})
+		}
+	}
+	c.Expect("2/rejected-message-descriptors", 5)
 
 	// ---------- 3: goroutines ----------
 	checkGoroutines(c)
@@ -322,7 +341,10 @@ func checkContainerReap(c *Check) {
 		return
 	}
 	check(he, start, errEdgeFilter(start))
-	check(hs, nil, nil)
+	if hs != he {
+		// (when the started-state handler was inlined into the launch handler the first pass covers it)
+		check(hs, nil, nil)
+	}
 }
 
 // ---------- descriptor pairing ----------
@@ -419,8 +441,8 @@ func checkDescriptorPairing(c *Check) {
 				}
 				// go func() { ...; unix.Close(p[0]) }()
 				if g, ok := in.(*ssa.Go); ok {
-					if mc, ok := g.Call.Value.(*ssa.MakeClosure); ok {
-						for _, c2 := range callInstrs(mc.Fn.(*ssa.Function)) {
+					if gf := spawnedFn(&g.Call); gf != nil && inModule(gf) && len(gf.Blocks) > 0 {
+						for _, c2 := range callInstrs(gf) {
 							if n2, _ := calleeOf(c2); strings.HasSuffix(n2, ".Close") && strings.HasSuffix(describe(c2.Common().Args[0]), fmt.Sprintf("%s[%d]", arr, idx)) {
 								return true
 							}
@@ -829,4 +851,36 @@ func isTransportErrorReturn(ret *ssa.Return) bool {
 		}
 	}
 	return false
+}
+
+// checkDestroyKillsAndReaps: no path through the environment's Destroy reaches a
+// return without having killed the container init (process.Kill) and waited
+// for it (process.Wait) — whatever earlier steps reported.
+func checkDestroyKillsAndReaps(c *Check, rule string) {
+	p := c.P
+	ds := p.Func("container", "container.Destroy")
+	if ds == nil {
+		c.Undecided(rule, "container.Destroy", "-", "function not found")
+		return
+	}
+	for _, step := range []string{"Kill", "Wait"} {
+		want := "(os.Process)." + step
+		n := 0
+		isStep := func(in ssa.Instruction) bool {
+			if ci, ok := in.(ssa.CallInstruction); ok {
+				if nm, _ := calleeOf(ci); nm == want {
+					return true
+				}
+			}
+			return false
+		}
+		for _, ci := range callInstrs(ds) {
+			if isStep(ci) {
+				n++
+			}
+		}
+		found, trail := pathQuery{fn: ds, target: isReturn, stop: isStep}.find()
+		c.Cond(n > 0 && !found, rule, "container.Destroy:always-"+step, p.Pos(ds.Pos()), "every return of Destroy has passed process."+step,
+			"Destroy can return without process."+step+" ("+p.trail(trail)+"): the container init stays alive or is left a zombie of the host")
+	}
 }
